@@ -32,7 +32,7 @@ from ..basetypes import (
 )
 from ..constructeddata import Array, ArrayOf, SequenceOf
 
-from ..errors import ExecutionError
+from ..errors import ExecutionError, InvalidParameterDatatype
 from ..object import (
     Property,
     ReadableProperty,
@@ -930,6 +930,21 @@ def Commandable(
                         raise ExecutionError(
                             errorClass="property", errorCode="invalidArrayIndex"
                         )
+
+                    # the value has to be a value of the datatype before it
+                    # goes into the array, the present value write that may
+                    # follow would refuse it after the element was changed (an
+                    # enumerated value is checked by its translation below)
+                    if (value != ()) and not issubclass(datatype, Enumerated):
+                        if issubclass(datatype, Atomic):
+                            valid = datatype.is_valid(value)
+                        else:
+                            valid = isinstance(value, datatype)
+                        if not valid:
+                            raise InvalidParameterDatatype(
+                                "%s must be of type %s"
+                                % (presentValue, datatype.__name__)
+                            )
 
                     # update the specific priorty value element
                     priority_value = getattr(self, priorityArray)[arrayIndex]
